@@ -8,6 +8,8 @@ import RuxModel.Drv.Writer
 import RuxModel.Drv.Render
 import RuxModel.Drv.Static
 import RuxModel.Drv.Conc
+import RuxModel.Drv.GoStr
+import RuxModel.Drv.Path
 /-
   Line-protocol driver: `driver <engine>` reads op lines on stdin and answers one line per op.
   Lines starting with `#` are echoed (they separate cases and carry comments).
@@ -38,7 +40,9 @@ def engines : List (String × Engine) := [
   ("render", renderEngine),
   ("clean", cleanEngine),
   ("static", staticEngine),
-  ("conc", concEngine)
+  ("conc", concEngine),
+  ("gostr", goStrEngine),
+  ("path", pathEngine)
 ]
 
 def main (args : List String) : IO UInt32 := do
